@@ -14,6 +14,13 @@ IdsOf(P) == {P[i].id : i \in 1..Len(P)}
 Inst(P, id) == P[CHOOSE i \in 1..Len(P) : P[i].id = id]
 RefSet(x) == Range(x.a) \cup Range(x.b)
 
+(* ---- spellings of a conforming file (ISO 10303-21 clause 5/6: blanks, line breaks, TAB, CR and comments are  *)
+(* token separators and any number of them may stand between any two tokens of the data section; a string may   *)
+(* contain anything, with the apostrophe doubled; a control directive \S\c denotes one character, whatever c is) *)
+Layouts == <<"compact", "spaced", "comment1", "comment2", "commentEnd", "commentFirst", "commentAfterEq",
+             "inlineComment", "kwNl", "kwTab", "kwSp", "crlf", "multiline", "blank", "oneLine", "refSpace">>
+StrForms == <<"plain", "hashparen", "quotes", "unset", "directive2", "directive1">>
+
 (* ---- C10: index, forward table, reverse table (as relations), dependency closure ---- *)
 FwdRel(P) == {<<x, y>> \in IdsOf(P) \X IdsOf(P) : y \in RefSet(Inst(P, x))}
 RevRel(P) == {<<y, x>> : <<x, y>> \in FwdRel(P)}
@@ -30,7 +37,7 @@ ReachesCycle(P, id) == OnCycle(P, id) \/ \E y \in Deps(P, id) : OnCycle(P, y)
 (* ---- C11: inverse attributes declared in schemas/lazy.exp ---- *)
 (* [entity |-> attribute name |-> [over: referrer entities (with subtypes), via: "a" | "b", single: BOOLEAN]] *)
 InvDecl(ty) ==
-  CASE ty \in {"inode", "isubnode"} -> {[name |-> "owners", over |-> {"iholder", "isub"}, via |-> "a", single |-> FALSE]}
+  CASE ty \in {"inode", "isubnode", "isubsub"} -> {[name |-> "owners", over |-> {"iholder", "isub"}, via |-> "a", single |-> FALSE]}
     [] ty = "ione" -> {[name |-> "owner", over |-> {"ilink"}, via |-> "a", single |-> TRUE]}
     [] ty = "itwo" -> {[name |-> "a_of", over |-> {"ipair"}, via |-> "a", single |-> FALSE],
                        [name |-> "b_of", over |-> {"ipair"}, via |-> "b", single |-> FALSE]}
